@@ -174,6 +174,8 @@ pub fn laps() -> Vec<Lap> {
         Lap { three_readers_every: 0, name: "delete-reinsert-and-bucket-delete-reopen-every-101", reopen_every: 101, reader_stretch: None, kind: 2 },
         Lap { three_readers_every: 0, name: "variable-size-with-reader-held-for-a-stretch", reopen_every: 0, reader_stretch: Some((300, 40)), kind: 1 },
         Lap { three_readers_every: 0, name: "bucket-delete-with-reader-held-for-a-stretch", reopen_every: 0, reader_stretch: Some((500, 25)), kind: 2 },
+        Lap { three_readers_every: 0, name: "fill-320-keys-delete-all-reopen (free list longer than one page)", reopen_every: 2, reader_stretch: None, kind: 3 },
+        Lap { three_readers_every: 0, name: "fill-320-keys-delete-all-reopen-every-7", reopen_every: 7, reader_stretch: None, kind: 3 },
         Lap { three_readers_every: 60, name: "variable-size-with-three-overlapping-readers-every-60", reopen_every: 0, reader_stretch: None, kind: 1 },
         Lap { three_readers_every: 45, name: "fixed-size-with-three-overlapping-readers-every-45", reopen_every: 0, reader_stretch: None, kind: 0 },
     ]
@@ -181,6 +183,10 @@ pub fn laps() -> Vec<Lap> {
 
 fn lap_ops(kind: u8, i: usize) -> Vec<OpSpec> {
     let k = format!("key{:02}", (i * 7) % 20);
+    if kind == 3 {
+        // even: insert a block of 320 x 300 B (about 130 pages); odd: delete it again
+        return if i % 2 == 0 { (0..320).map(|j| OpSpec::put(&["lap"], &format!("blk{:03}", j), "b*300")).collect() } else { (0..320).map(|j| OpSpec::del(&["lap"], &format!("blk{:03}", j))).collect() };
+    }
     match kind {
         0 => vec![OpSpec::put(&["lap"], &k, "f*200"), OpSpec::put(&["lap"], &format!("key{:02}", (i * 3 + 1) % 20), "f*200")],
         1 => {
@@ -217,6 +223,7 @@ pub fn run_lap(lap: &Lap, n: usize, path: &str) -> Value {
     let mut reader_closed_at: Option<(usize, u64)> = None;
     let mut file_len_max = 0u64;
     let check_every = 1usize;
+    let n = if lap.kind == 3 { n / 5 } else { n };
     for i in 0..n {
         if lap.reopen_every > 0 && i % lap.reopen_every == lap.reopen_every - 1 && r.num_readers() == 0 {
             r.step(&Action::Reopen, &Oracles::NONE);
@@ -249,7 +256,7 @@ pub fn run_lap(lap: &Lap, n: usize, path: &str) -> Value {
         }
         if i % 10 == 9 {
             // every tenth transaction is abandoned: it must not cost any page afterwards
-            let mut ops = lap_ops(lap.kind, i + 3);
+            let mut ops = if lap.kind == 3 { vec![] } else { lap_ops(lap.kind, i + 3) };
             ops.push(OpSpec::put(&["lap"], "abandoned", "e*3200"));
             r.step(&Action::Tx { ops, commit: false }, &Oracles::NONE);
         }
